@@ -924,6 +924,32 @@ def rule_dispatch(ctx) -> None:
     chk.decide("if version is None:" in t and "version = ProtocolVersion.from_public_key(public_key=rot_pub)" in t, "C15.dispatch", cf.qual + " version", "protocol version defaults to the one implied by the RoT key", "", "", A.loc(DC, cf.node))
 
 
+def rule_response_fresh_signature(ctx) -> None:
+    """C15.response-fresh-signature: the signature of an authentication response is made over the data of THIS export: on every returning
+    path of DebugAuthenticateResponse._get_signature (and of its overrides) the returned value is the result of the signature provider
+    called on `_get_data_for_signature()` in that same invocation - never a value kept from an earlier export, which would answer a new
+    challenge (or carry a new beacon) with the signature of the old one."""
+    base = ctx.cls(DAR, "DebugAuthenticateResponse")
+    n = 0
+    for k in [base] + list(ctx.prog.subclasses(base)):
+        for f in k.methods.get("_get_signature", []):
+            n += 1
+            ctx.chk.analysed(f.qual)
+            bad = None
+            for q in A.spaths(f.node):
+                if q.end != "return":
+                    continue
+                v = q.value
+                ok = isinstance(v, ast.Call) and isinstance(v.func, ast.Attribute) and v.func.attr == "sign" and "sign_provider" in norm(v.func.value) \
+                    and any(isinstance(c, ast.Call) and A.call_name(c) == "_get_data_for_signature" for a_ in v.args for c in ast.walk(a_))
+                if not ok:
+                    bad = q.vtext
+                    break
+            ctx.chk.decide(bad is None, "C15.response-fresh-signature", f.qual, "every returned signature is sign_provider.sign(_get_data_for_signature()) of this call",
+                           f"a path returns `{(bad or '')[:100]}`: not a signature made over the current response data", "return self.sign_provider.sign(self._get_data_for_signature())", A.loc(DAR, f.node))
+    ctx.chk.floor("C15.response-fresh-signature", 1)
+
+
 def rule_rot_meta_roundtrip(ctx) -> None:
     """C15.rotmeta-roundtrip: the RoT meta records of a debug credential interpreted on model objects (E19): parse(export(x)) has the
     fields of x and exports to the same bytes (RSA table of hashes, the flags word)."""
@@ -952,6 +978,7 @@ def run(ctx) -> None:
     ctx.rule(rule_dac)
     ctx.rule(rule_dispatch)
     ctx.rule(rule_rot_meta_roundtrip)
+    ctx.rule(rule_response_fresh_signature)
     ctx.chk.assumptions = ["the signature primitives sign/verify correctly (C08 decides the provider plumbing)",
                            "RSA RoT keys use the public exponent 65537 (RotMetaRSA hashes a fixed 3-byte exponent, RKHT the minimal encoding)",
                            "AHAB certificate / SRK table / signed message internals of the EdgeLock-enclave variants are decided under C06",
